@@ -36,7 +36,7 @@ def check(run):
     for j in check_c02.gen_round(run, exe, {e: acc[e] for e in check_c02.ECOS}, rnd, 0, 0): rtexts[j["eco"]].append(j["text"])
     for v in check_c05.vectors(run): rtexts[v["eco"]].append(v["text"])
     ch = versgen.chains(run)
-    nv, nr = (8, 5) if quick else (14, 10)
+    nv, nr = (8, 40) if quick else (14, 120)
     # VERS: the same constraint text under every scheme that accepts its versions (history across schemes)
     bodies = [">=1.0.0|<2.0.0", ">=1.0.0-beta1|<1.0.0-beta3|>=1.0.0-RC1|<1.0.0", "=1.0|!=1.1|>2.0", ">=1.0~rc1|<2.0.7", "<1.0.0-alpha|>=1.0.0|<2.0.9",
               ">=1.0.0-rc.1|<1.0.0-rc.10|>=1.0.0-rc.2"]
@@ -56,8 +56,18 @@ def check(run):
     run_phase("seqA", "seq", 11, exe)
     run_phase("seqB", "seq", 97, exe)
     racelog = run.path("race")
-    run_phase("conc", "conc", run.seed, exe_race, env={"GORACE": "halt_on_error=0 log_path=%s" % racelog})
     races = []
+    try:
+        run_phase("conc", "conc", run.seed, exe_race, env={"GORACE": "halt_on_error=0 exitcode=0 log_path=%s" % racelog})
+    except vlib.Infra as e:
+        # the Go runtime kills the process when it detects unsynchronised map access: that is an observation
+        # of go-univers under concurrent use (a data race), not a failure of the harness
+        msg = str(e)
+        hit = [l for l in msg.splitlines() if "concurrent map" in l]
+        if not hit:
+            raise
+        where = [l.strip() for l in msg.splitlines() if "go-univers/pkg" in l or "/repo/" in l][:4]
+        races.append({"k": "race", "report": ("runtime fatal error: " + hit[0].strip() + " / " + " / ".join(where))[:600]})
     for f in glob.glob(racelog + ".*"):
         txt = open(f, errors="replace").read()
         for blk in txt.split("=================="):
